@@ -6,7 +6,7 @@
 From Coq Require Import List NArith String Bool Permutation.
 From V Require Import Base.Strings Base.Result Model.Registry Model.Settings Model.Subst
   Model.TypePath Model.Derives Model.Generate Model.Emit Model.Equal Model.Reach
-  Model.Builders.
+  Model.Builders Proofs.SortDedup Proofs.OrderFree.
 Import ListNotations.
 Open Scope string_scope. Open Scope list_scope. Open Scope N_scope.
 
@@ -78,3 +78,39 @@ Example ex_order_free :
   (let* m := generate ex_reg ex_settings (types_equal ex_reg) in emit_module ex_settings m) =
   (let* m := generate ex_reg ex_settings' (types_equal ex_reg) in emit_module ex_settings' m).
 Proof. vm_compute. repeat split. Qed.
+
+(** ... and they satisfy the propositional hypotheses of [C06_generate_order_free] *)
+Lemma key_functional_by_keys (l : list kt) :
+  (forall x, In x l -> snd x = [fst x]) -> key_functional l.
+Proof.
+  intros H x y Hx Hy E. destruct x as [k t], y as [k' t'].
+  pose proof (H _ Hx) as A. pose proof (H _ Hy) as B. cbn in A, B, E. congruence.
+Qed.
+
+Example ex_order_free_hyps :
+  settings_same ex_settings ex_settings' /\
+  dreg_same (s_dreg ex_settings) (s_dreg ex_settings') /\
+  well_keyed (s_dreg ex_settings) (s_dreg ex_settings') (s_compact_as ex_settings).
+Proof.
+  split; [|split].
+  - unfold settings_same. cbn. repeat split; reflexivity.
+  - apply dreg_perm_same.
+    + intros x; cbn; tauto.
+    + intros x; cbn; tauto.
+    + split; [|split; [|split]].
+      * cbn. repeat constructor; cbn; tauto.
+      * cbn. repeat constructor; cbn; tauto.
+      * intros key; cbn; tauto.
+      * intros ka da kb db Ha Hb _. cbn in Ha, Hb.
+        destruct Ha as [Ha|[]], Hb as [Hb|[]]. inversion Ha; inversion Hb; subst.
+        split; intros x; cbn; tauto.
+    + split; [|split; [|split]].
+      * cbn. repeat constructor; cbn; intuition discriminate.
+      * cbn. repeat constructor; cbn; intuition discriminate.
+      * intros key; cbn; tauto.
+      * intros ka da kb db Ha Hb E. cbn in Ha, Hb.
+        destruct Ha as [Ha|[Ha|[]]], Hb as [Hb|[Hb|[]]]; inversion Ha; inversion Hb; subst;
+          cbn in E; try discriminate; split; intros x; cbn; tauto.
+  - split; apply key_functional_by_keys; cbn; intros x Hx;
+      repeat (destruct Hx as [<-|Hx]; [reflexivity|]); destruct Hx.
+Qed.
